@@ -3,6 +3,9 @@ from .common import *  # noqa
 from vc.speclemmas import LIB
 from vc.reflect import reflect_bool_method, ReflectError
 from contracts.pattern_family import base_contracts
+from contracts.rust_judgements import judgement_lemmas, judgement_replayer
+from vc.rsfe import RsProgram
+from vc.reflect import reflect_rs_bool_methods
 
 
 def build(repo, tier):
@@ -13,7 +16,17 @@ def build(repo, tier):
         JE = None
         notes.append(f'reflection of evar_is_free failed: {e!r}')
     cs = base_contracts(JE)
-    units = lemma_units(LIB)
+    lib = dict(LIB)
+    rs_ok = True
+    try:
+        prog = RsProgram(repo.root)
+        rsf = reflect_rs_bool_methods(prog, ['e_fresh', 's_fresh', 'positive', 'negative'])
+        for l in judgement_lemmas(rsf):
+            lib[l.name] = l
+    except Exception as e:
+        rs_ok = False
+        notes.append(f'rust front end / reflection failed: {e!r}')
+    units = lemma_units(lib)
     targets = {}
     c = cs['Pattern.evar_is_free']
     for cn in PCTORS:
@@ -21,12 +34,15 @@ def build(repo, tier):
         name = f'C06/py/{cn}.evar_is_free'
         units.append(Unit(name, verify_unit(repo, cs, f, c, arm=cn)))
         targets[name] = FnTarget(PM, f'{cn}.evar_is_free', c, arm=cn, enum=arm_enum(cn, [('name', 'int')]))
-    spec = PropSpec('C06', units, LIB, targets,
+    spec = PropSpec('C06', units, lib, targets,
                     trusted=TRUSTED_ENGINE + ['reflection of evar_is_free into the logical function J_evar_is_free (vc/reflect.py)'],
                     assumptions=PY_ASSUMPTIONS + [
                         'admissible instantiation = total valuation sigma:id->pattern (uninterpreted, so every sigma) whose value at each MetaVar occurrence satisfies that occurrence\'s e_fresh/s_fresh/positive/negative lists; app_ctx_holes is not part of admissibility',
                         'free variables / polarity on non-ground junk (MetaVar inside sigma values) are fixed constants chosen so that all lemmas hold unconditionally'],
-                    functions=[(PFILE, f'{cn}.evar_is_free') for cn in PCTORS], notes=notes)
+                    functions=[(PFILE, f'{cn}.evar_is_free') for cn in PCTORS] + [('rust/src/lib.rs', 'Pattern::' + n) for n in ('e_fresh', 's_fresh', 'positive', 'negative')], notes=notes)
+    spec.lemma_replayers['lemma:rs_'] = judgement_replayer
+    if not rs_ok:
+        spec.extra_checks.append(lambda tier, seed: [{'undecided': [('C06/rs', 'rust front end failed: ' + '; '.join(notes))]}])
     if JE is None:
         spec.extra_checks.append(lambda tier, seed: [{'undecided': [('C06/py/notation-independence', 'reflection failed')]}])
     return spec
